@@ -1804,6 +1804,16 @@ class Model:
             Self: The current instance with the added surrogate model.
 
         """
+        # Check all new names before anything is changed
+        new_ids = [name, *(surrogate.outputs if outputs is None else outputs)]
+        for i, new_id in enumerate(new_ids):
+            if new_id == "time":
+                msg = "time is a protected variable for time"
+                raise KeyError(msg)
+            if new_id in self._ids or new_id in new_ids[:i]:
+                msg = f"Model already contains {self._ids.get(new_id, 'surrogate')} called '{new_id}'"
+                raise NameError(msg)
+
         self._insert_id(name=name, ctx="surrogate")
 
         # Update surrogate if necessary
